@@ -14,7 +14,8 @@ IMPL_SHARDS = 16
 RULE = ("one PRNG (VERIF_SEED). A case = (initial Root value, reader chains, history, executor schedule, "
         "FieldKeys visiting orders). Families: allpairs (one reader effect per field path of a populated "
         "store — structs, Option, Vec, keyed Vec, depth up to 6 — then a write through every writable "
-        "path in turn, so every (written path, read path) pair is exercised), random (random reader "
+        "path in turn, so every (written path, read path) pair is exercised; readers of collections either "
+        "read them whole or iterate with iter_unkeyed / the keyed iterator), random (random reader "
         "subsets in random creation order, histories mixing set / patch / poke at random reachable paths, "
         "Option and Vec becoming empty and populated again, non-FIFO schedules), keyed (histories of "
         "insert / remove / reorder through the keyed field's own write guard with readers on items and "
@@ -339,8 +340,23 @@ def rnd_sched(rng):
     return [rng.randint(0, 9) for _ in range(rng.randint(1, 6))]
 
 
-def mk(init, readers, steps, sched, orders, kind):
-    return dict(case=C.norm([0, init, readers, steps, sched, orders]), kind=kind, compare=True)
+def schema_at(chain):
+    sch = ROOT
+    for kind, arg in chain:
+        sch = sch[1][arg] if sch[0] == "struct" else sch[1]
+    return sch
+
+
+def mk(init, readers, steps, sched, orders, kind, rng=None):
+    """readers whose chain addresses a collection may iterate over it (iter_unkeyed / keyed
+    into_iter) instead of reading it as a whole"""
+    flavours = []
+    for rd in readers:
+        it = 0
+        if rng is not None and well_typed(rd) and schema_at(rd)[0] in ("vec", "keyed") and rng.random() < 0.5:
+            it = 1
+        flavours.append(it)
+    return dict(case=C.norm([0, init, readers, steps, sched, orders, flavours]), kind=kind, compare=True)
 
 
 # ------------------------------------------------------------------------------------------ families
@@ -362,7 +378,7 @@ def gen_allpairs(rng, chunk=9):
             new = mutate_same_shape(rng, sch, v)
             steps.append([0, w, new])
             tree = set_at(tree, w, new)
-        yield mk(init, readers, steps, [], rnd_orders(rng, len(steps)), "allpairs")
+        yield mk(init, readers, steps, [], rnd_orders(rng, len(steps)), "allpairs", rng)
 
 
 def mutate_same_shape(rng, sch, v):
@@ -425,7 +441,7 @@ def gen_random(rng, n_steps):
             new = mutate(rng, sch, v)
             steps.append([0, w, new])
         tree = set_at(tree, w, new)
-    return mk(init, readers, steps, rnd_sched(rng), rnd_orders(rng, len(steps)), "random")
+    return mk(init, readers, steps, rnd_sched(rng), rnd_orders(rng, len(steps)), "random", rng)
 
 
 def contains_keyed(sch):
@@ -478,7 +494,7 @@ def gen_patch(rng, n_steps):
         tree = set_at(tree, w, new)
         if rng.random() < 0.3:
             steps.append([4, rng.randrange(len(readers)), 0])
-    return mk(init, readers, steps, rnd_sched(rng), rnd_orders(rng, len(steps)), "patch")
+    return mk(init, readers, steps, rnd_sched(rng), rnd_orders(rng, len(steps)), "patch", rng)
 
 
 def gen_keyed(rng, n_steps, exact=False):
@@ -551,7 +567,7 @@ def gen_keyed(rng, n_steps, exact=False):
             tree = set_at(tree, w, new)
     return mk(init, readers, steps, [] if exact else rnd_sched(rng),
               [[[], []]] * len(steps) if exact else rnd_orders(rng, len(steps)),
-              "keyed-exact" if exact else "keyed")
+              "keyed-exact" if exact else "keyed", rng)
 
 
 def set_keys_like(sch, old, new):
@@ -580,7 +596,8 @@ def gen_keyed_small(rng):
     fld = rng.choice([[F(4)], [F(1), F(3)]])
     tree = init
     cur = reach(tree, fld)[2]
-    readers = [fld + [K(it[0])] + rng.choice([[], [F(1)], [F(2), F(0)]]) for it in cur]
+    readers = [fld + [K(it[0])] + rng.choice([[], [F(1)], [F(2), F(0)]]) for it in cur] + [list(fld)]
+    rng.shuffle(readers)
     steps = []
     if rng.random() < 0.5:
         steps.append([3, fld, []])
@@ -596,7 +613,7 @@ def gen_keyed_small(rng):
         j, sch, v = reach(tree, w)
         steps.append([0, w, mutate_same_shape(rng, sch, v)])
     steps.append([3, fld, []])
-    return mk(init, readers, steps, [], rnd_orders(rng, len(steps)), "keyed")
+    return mk(init, readers, steps, [], rnd_orders(rng, len(steps)), "keyed", rng)
 
 
 def generate(rng, tier):
@@ -629,7 +646,9 @@ def valid_case(item):
     change their key sequence only through a direct write; items keep their key; keys distinct"""
     try:
         c = item["case"]
-        if len(c) != 6 or c[0] != 0:
+        if len(c) not in (6, 7) or c[0] != 0:
+            return False
+        if len(c) == 7 and not (isinstance(c[6], list) and all(x in (0, 1) for x in c[6])):
             return False
         tree, readers, steps = c[1], c[2], c[3]
         if not well_formed(ROOT, tree):
@@ -830,11 +849,12 @@ def describe(item):
 
 def coverage_extra(results):
     pairs = dict(self_=0, ancestor=0, descendant=0, unrelated=0)
-    keyed_updates = reports = patches = 0
+    keyed_updates = reports = patches = iterating = 0
     depth = {}
     for r in results:
         c = r["item"]["case"]
         readers = [tup(x) for x in c[2]]
+        iterating += sum(c[6]) if len(c) > 6 else 0
         for st in c[3]:
             if st[0] == 0:
                 w = tup(st[1])
@@ -855,7 +875,7 @@ def coverage_extra(results):
             elif st[0] == 3:
                 reports += 1
     return dict(writer_reader_pairs=pairs, written_depth_histogram=depth, keyed_updates=keyed_updates,
-                segment_reports=reports, patches=patches)
+                segment_reports=reports, patches=patches, iterating_readers=iterating)
 
 
 LEVEL_TEXT = ("Coq proofs, for all paths of any depth, that a write through the field at path p wakes a reader of path r "
